@@ -95,8 +95,10 @@ let read_deadline = ref (-1)
 let read_tl = ref (-1)
 let first_clock = ref true
 let polls_after_deadline = ref 0
-let stopped_by = ref 0
-let stop_reported = ref false
+(* job-control part of the kernel state (Kernel/JobCtl.v): which stop signal suspended the child, and whether that
+   stop has been reported *)
+let xstopped : BinNums.coq_N option ref = ref None
+let xseen = ref false
 (* poll reported stdin writable, and the library polled again (or returned) without having written to it *)
 let pending_in = ref false
 let starved = ref 0
@@ -252,9 +254,11 @@ let serve_pcall (c : PopenSM.pcall) : PopenSM.presult option =
     let dur = n_of_int ((next_choice () mod 50) * 1000) in
     let over = n_of_int (let k = next_choice () in if k mod 4 = 0 then (k mod 3000) * 1000 else 0) in
     let t_before = int_of_n w.PopenSM.pnow in
-    match PopenSM.pserve w c dur over with
-    | PopenSM.PNever -> verdict := "never"; None
-    | PopenSM.PRes (w', r) ->
+    match JobCtl.xserve { JobCtl.xbase = w; JobCtl.xstopped = !xstopped; JobCtl.xseen = !xseen } (JobCtl.XBase c) dur over with
+    | JobCtl.XNever -> verdict := "never"; None
+    | JobCtl.XRes (xw, r) ->
+      let w' = xw.JobCtl.xbase in
+      xstopped := xw.JobCtl.xstopped; xseen := xw.JobCtl.xseen;
       pw := Some w';
       Buffer.add_string op_log (Printf.sprintf " %s@%d" (show_pcall c) t_before);
       (match !lpst, !lpexpect with
@@ -311,7 +315,7 @@ let () =
          choices := if c = "-" then [] else Stdlib.List.map (fun x -> nat_of_int (int_of_string x)) (String.split_on_char ',' c);
          reply "ok"
        | ["popen"; ex; raw; reap; dies] ->
-         stopped_by := 0; stop_reported := false;
+         xstopped := None; xseen := false;
          pw := Some { PopenSM.pr = PopenSM.PAlive;
                       PopenSM.exit_at = (if ex = "never" then None else Some (n_of_int (int_of_string ex), n_of_int (int_of_string raw)));
                       PopenSM.reap_at = (if reap = "never" then None else Some (n_of_int (int_of_string reap)));
@@ -385,24 +389,27 @@ let () =
          lpst := Some s; lpexpect := Some a;
          reply "ok"
        | ["waitpid"; nh; other] ->
-         (* Lib/PopenSM.v abstracts the options argument to WNOHANG or nothing: any other bit is outside the model.
-            To exhibit what such a bit does, this glue (not the proved kernel model) emulates job-control stops:
-            with WUNTRACED (2) a stopped, still unreported child is reported as stopped. *)
+         (* L (Lib/PopenSM.v) issues waitpid with WNOHANG or no option only: any other bit is a call L never makes
+            and breaks the tie; the job-control kernel (Kernel/JobCtl.v, extracted) says what it observes *)
          let o = int_of_string other in
-         if o <> 0 then diverge (Printf.sprintf "E1:PopenSM op#%d: real=waitpid(options %s| 0x%x) model=waitpid(WNOHANG or 0 only)" !opidx (if nh = "1" then "WNOHANG " else "") o);
-         let alive = (match !pw with Some w -> (match (PopenSM.padvance w w.PopenSM.pnow).PopenSM.pr with PopenSM.PAlive -> true | _ -> false) | None -> false) in
-         if o land 2 <> 0 && !stopped_by > 0 && not !stop_reported && alive then begin
-           incr ncalls; incr op_calls; stop_reported := true;
-           Buffer.add_string op_log (Printf.sprintf " waitpid(WUNTRACED)=stopped:%d" !stopped_by);
-           lpexpect := None;
-           reply (Printf.sprintf "pid 1 %d" ((!stopped_by lsl 8) lor 0x7f))
-         end else
-           reply_presult (serve_pcall (PopenSM.PWaitpid (nh = "1")))
-       | ["kill"; sg] ->
-         let g = int_of_string sg in
-         if g = 19 || g = 20 || g = 21 || g = 22 then (stopped_by := g; stop_reported := false)
-         else if g = 18 then stopped_by := 0;
-         reply_presult (serve_pcall (PopenSM.PKill (n_of_int g)))
+         if o = 0 then reply_presult (serve_pcall (PopenSM.PWaitpid (nh = "1")))
+         else begin
+           diverge (Printf.sprintf "E1:PopenSM op#%d: real=waitpid(options %s| 0x%x) model=waitpid(WNOHANG or 0 only)" !opidx (if nh = "1" then "WNOHANG " else "") o);
+           match !pw with
+           | None -> reply "?"
+           | Some w ->
+             incr ncalls; incr op_calls;
+             let dur = n_of_int ((next_choice () mod 50) * 1000) in
+             let over = n_of_int 0 in
+             (match JobCtl.xserve { JobCtl.xbase = w; JobCtl.xstopped = !xstopped; JobCtl.xseen = !xseen } (JobCtl.XWaitOpts (nh = "1", n_of_int o)) dur over with
+              | JobCtl.XNever -> verdict := "never"; reply_presult None
+              | JobCtl.XRes (xw, r) ->
+                pw := Some xw.JobCtl.xbase; xstopped := xw.JobCtl.xstopped; xseen := xw.JobCtl.xseen;
+                Buffer.add_string op_log (Printf.sprintf " waitpid(0x%x)@%d" o (int_of_n w.PopenSM.pnow));
+                lpexpect := None;
+                reply_presult (Some r))
+         end
+       | ["kill"; sg] -> reply_presult (serve_pcall (PopenSM.PKill (n_of_int (int_of_string sg))))
        | ["fkill"; pid; sg] ->
          diverge (Printf.sprintf "E1:PopenSM op#%d: real=kill(pid %s, sig %s) aimed at a foreign pid" !opidx pid sg);
          Buffer.add_string op_log (Printf.sprintf " FOREIGNKILL(%s,%s)" pid sg);
